@@ -136,6 +136,9 @@ def _bsum(eng, p, h, el, ws, j, k):
 VIEWS["bsum"] = _bsum
 
 
+INJ = "all(implies(0 <= a and a < b and b < len(edge_list), canon(edge_list[a]) != canon(edge_list[b])) for a in Int for b in Int)"
+
+
 def C(name, **kw):
     kw.setdefault("properties", ["C02"])
     return Contract(f"{CLS}.{name}", FILE, [CLS, name], self_cls=CLS, **kw)
@@ -298,6 +301,63 @@ CONTRACTS = [
       raises={"ValueError": "order is not None and size is not None"},
       ensures={"result": "all(count(result, k) == (1 if k in E(self) and sel(self, k, order, size, up_to) else 0) for k in Key)"},
       properties=["C02", "C05", "C12"]),
+    Contract(f"{CLS}.get_nodes@md", FILE, [CLS, "get_nodes"], self_cls=CLS, properties=["C02", "C19"],
+      params={"metadata": "Bool"}, fixed={"metadata": True}, result="Map[Int,Meta]", pure=True,
+      requires={"wf": "wf(self)"},
+      ensures={"dom": "all((n in result) == (n in V(self)) for n in Node)",
+               "val": "all(result[n] == NM(self, n) for n in V(self))"}),
+    Contract(f"{CLS}.get_edges@md", FILE, [CLS, "get_edges"], self_cls=CLS, properties=["C02", "C19"],
+      params={"order": "Opt[Int]", "size": "Opt[Int]", "up_to": "Bool", "subhypergraph": "Bool", "keep_isolated_nodes": "Bool", "metadata": "Bool"},
+      fixed={"subhypergraph": False, "keep_isolated_nodes": False, "metadata": True},
+      result="Map[Key,Meta]", pure=True, requires={"wf": "wf(self)"},
+      raises={"ValueError": "order is not None and size is not None"},
+      ensures={"dom": "all((k in result) == (k in E(self) and sel(self, k, order, size, up_to)) for k in Key)",
+               "val": "all(implies(sel(self, k, order, size, up_to), result[k] == M(self, k)) for k in E(self))"}),
+    # get_edges(subhypergraph=True): extraction by one order / size, with and without the isolated nodes (C05)
+    Contract(f"{CLS}.get_edges@sub_iso", FILE, [CLS, "get_edges"], self_cls=CLS, properties=["C05"], options={"listing_positional"},
+      params={"order": "Opt[Int]", "size": "Opt[Int]", "up_to": "Bool", "subhypergraph": "Bool", "keep_isolated_nodes": "Bool", "metadata": "Bool"},
+      fixed={"subhypergraph": True, "keep_isolated_nodes": True},
+      result="Obj[DirectedHypergraph]", pure=True, locals={"edges": "Seq[Key]", "edge_weights": "Seq[Real]"},
+      requires={"wf": "wf(self)"},
+      raises={"ValueError": "order is not None and size is not None"},
+      ensures={"wf": "wf(result)", "weighted": "weighted(result) == weighted(self)",
+               "E": "all((k in E(result)) == (k in E(self) and sel(self, k, order, size, up_to)) for k in Key)",
+               "W": "all(W(result, k) == W(self, k) for k in E(result))",
+               "M": "all(M(result, k) == M(self, k) for k in E(result))",
+               "V": "all((n in V(result)) == (n in V(self)) for n in Node)",
+               "NM": "all(NM(result, n) == NM(self, n) for n in V(result))"},
+      invariants={
+          0: {"wf": "wf(h)", "weighted": "weighted(h) == weighted(self)", "V": "all((n in V(h)) == (n in V(self)) for n in Node)",
+              "E": "all((k in E(h)) == (k in E(self) and sel(self, k, order, size, up_to)) for k in Key)",
+              "W": "all(W(h, k) == W(self, k) for k in E(h))",
+              "NM": "all(NM(h, n) == NM(self, n) for n in _done0)"},
+          1: {"wf": "wf(h)", "weighted": "weighted(h) == weighted(self)", "V": "all((n in V(h)) == (n in V(self)) for n in Node)",
+              "E": "all((k in E(h)) == (k in E(self) and sel(self, k, order, size, up_to)) for k in Key)",
+              "W": "all(W(h, k) == W(self, k) for k in E(h))",
+              "NM": "all(NM(h, n) == NM(self, n) for n in V(h))",
+              "M": "all(M(h, edges[m]) == M(self, edges[m]) for m in Int if 0 <= m and m < _j1)"}}),
+    Contract(f"{CLS}.get_edges@sub", FILE, [CLS, "get_edges"], self_cls=CLS, properties=["C05"], options={"listing_positional"},
+      params={"order": "Opt[Int]", "size": "Opt[Int]", "up_to": "Bool", "subhypergraph": "Bool", "keep_isolated_nodes": "Bool", "metadata": "Bool"},
+      fixed={"subhypergraph": True, "keep_isolated_nodes": False},
+      result="Obj[DirectedHypergraph]", pure=True, locals={"edges": "Seq[Key]", "edge_weights": "Seq[Real]"},
+      requires={"wf": "wf(self)"},
+      raises={"ValueError": "order is not None and size is not None"},
+      ensures={"wf": "wf(result)", "weighted": "weighted(result) == weighted(self)",
+               "E": "all((k in E(result)) == (k in E(self) and sel(self, k, order, size, up_to)) for k in Key)",
+               "W": "all(W(result, k) == W(self, k) for k in E(result))",
+               "M": "all(M(result, k) == M(self, k) for k in E(result))",
+               "V": "all((n in V(result)) == any(k in E(self) and sel(self, k, order, size, up_to) and (n in fst(k) or n in snd(k)) for k in Key) for n in Node)",
+               "NM": "all(NM(result, n) == NM(self, n) for n in V(result))"},
+      invariants={
+          2: {"wf": "wf(h)", "weighted": "weighted(h) == weighted(self)", "V": "all((n in V(h)) == any(k in E(self) and sel(self, k, order, size, up_to) and (n in fst(k) or n in snd(k)) for k in Key) for n in Node)",
+              "E": "all((k in E(h)) == (k in E(self) and sel(self, k, order, size, up_to)) for k in Key)",
+              "W": "all(W(h, k) == W(self, k) for k in E(h))",
+              "NM": "all(NM(h, n) == NM(self, n) for n in _done2)"},
+          3: {"wf": "wf(h)", "weighted": "weighted(h) == weighted(self)", "V": "all((n in V(h)) == any(k in E(self) and sel(self, k, order, size, up_to) and (n in fst(k) or n in snd(k)) for k in Key) for n in Node)",
+              "E": "all((k in E(h)) == (k in E(self) and sel(self, k, order, size, up_to)) for k in Key)",
+              "W": "all(W(h, k) == W(self, k) for k in E(h))",
+              "NM": "all(NM(h, n) == NM(self, n) for n in V(h))",
+              "M": "all(M(h, edges[m]) == M(self, edges[m]) for m in Int if 0 <= m and m < _j3)"}}),
     # role-specific listings: a hyperedge is listed exactly once per role it plays for the node
     C("get_source_edges", params={"node": "Node", "order": "Opt[Int]", "size": "Opt[Int]"}, result="Bag[Key]", pure=True,
       requires={"wf": "wf(self)"},
@@ -489,8 +549,13 @@ CONTRACTS = [
                "V": "all((n in V(self)) == (n in V(old(self)) or any(0 <= m and m < len(edge_list) and (n in fst(edge_list[m]) or n in snd(edge_list[m])) for m in Int)) for n in Node)",
                "E": "all((k in E(self)) == (k in E(old(self)) or any(0 <= m and m < len(edge_list) and canon(edge_list[m]) == k for m in Int)) for k in Key)",
                "W": "implies(weighted(self), all(W(self, k) == (W(old(self), k) if k in E(old(self)) else 0) + bsum(self, edge_list, weights, len(edge_list), k) for k in E(self)))",
+               # for a list without repeated hyperedges the fold collapses: position m adds exactly its own weight
+               "W_each": f"implies(weighted(self) and {INJ}, all(W(self, canon(edge_list[m])) == (W(old(self), canon(edge_list[m])) if canon(edge_list[m]) in E(old(self)) else 0) "
+                         "+ (weights[m] if weights is not None and len(weights) > 0 else 1) for m in Int if 0 <= m and m < len(edge_list)))",
                **NODE_MD_KEPT, **SAME_WEIGHTED},
       invariants={0: {
+          "P0": "all(implies(all(implies(0 <= m and m < _j0, canon(edge_list[m]) != k) for m in Int), bsum(self, edge_list, weights, _j0, k) == 0) for k in Key)",
+          "P1": f"implies({INJ}, all(bsum(self, edge_list, weights, _j0, canon(edge_list[m])) == (weights[m] if weights is not None and len(weights) > 0 else 1) for m in Int if 0 <= m and m < _j0))",
           "wf": "wf(self)",
           "V": "all((n in V(self)) == (n in V(old(self)) or any(0 <= m and m < _j0 and (n in fst(edge_list[m]) or n in snd(edge_list[m])) for m in Int)) for n in Node)",
           "E": "all((k in E(self)) == (k in E(old(self)) or any(0 <= m and m < _j0 and canon(edge_list[m]) == k for m in Int)) for k in Key)",
